@@ -70,6 +70,9 @@ class Graph:
         self.max_depth = max_depth
         self.sync_lambdas = sync_lambdas
         self.root_ctx = Ctx(None, None, None, func, 0)
+        self.ctx_bounds = {}    # id(ctx) -> (entry point, exit point)
+        self.point_of = {}      # (id(ctx), node index) -> Point
+        self.ctxs = [self.root_ctx]
         self.entry, self.exit = self._build(func, self.root_ctx)
         for p in self.points:
             for (s, lab) in p.succ:
@@ -81,6 +84,8 @@ class Graph:
     def _new(self, f, n, el, ctx, kind, block):
         p = Point(len(self.points), f, n, el, ctx, kind, block)
         self.points.append(p)
+        if n is not None:
+            self.point_of[(id(ctx), n['i'])] = p
         return p
 
     def _lambda_args(self, f, call):
@@ -101,6 +106,22 @@ class Graph:
                     break
                 n = f.nodes[sub]
                 hops += 1
+            if n['k'] == 'ref' and n.get('sk') == 'local':
+                # a closure kept in a local and handed over later (auto pred = [..]{..}; cv.wait_for(lk, t, pred))
+                for m in f.nodes:
+                    if m['k'] == 'declstmt':
+                        for d in m['decls']:
+                            if d['id'] == n.get('id') and 'init' in d:
+                                x = f.nodes[d['init']]
+                                h = 0
+                                while x['k'] in ('construct', 'cast') and h < 4:
+                                    sub = x['args'][0] if x['k'] == 'construct' and len(x.get('args', [])) == 1 else x.get('e')
+                                    if sub is None or sub < 0:
+                                        break
+                                    x = f.nodes[sub]
+                                    h += 1
+                                if x['k'] == 'lambda':
+                                    n = x
             if n['k'] == 'lambda':
                 out.append(n)
         return out
@@ -167,6 +188,16 @@ class Graph:
             term = b.get('t')
             tails = last[b['id']]
             cond = term.get('cnd') if term else None
+            # the condition of `if (a && b)` is reported as the whole `a && b`; in the block that ends the
+            # evaluation its value is the value of the operand evaluated last (the right-most one)
+            hops = 0
+            while cond is not None and hops < 8:
+                cn = f.nodes[cond]
+                if cn['k'] == 'binop' and cn['op'] in ('&&', '||') and term['k'] != 'BinaryOperator':
+                    cond = cn['rhs']
+                    hops += 1
+                else:
+                    break
             two_way = term is not None and cond is not None and len(succ) == 2 and term['k'] != 'SwitchStmt'
             for i, s in enumerate(succ):
                 if s is None:
@@ -183,6 +214,7 @@ class Graph:
                         lab = ('case', None, None, 'fallthrough-or-exit')
                 for t in tails:
                     t.succ.append((first[s], lab))
+        self.ctx_bounds[id(ctx)] = (first[f.entry], first[f.exit])
         return first[f.entry], first[f.exit]
 
     def _splice(self, f, call, ctx):
@@ -196,6 +228,7 @@ class Graph:
         if (callee is not None and self.inline is not None and ctx.depth < self.max_depth and callee.key not in stack
                 and callee.blocks and self.inline(f, call, callee, ctx.depth)):
             sub = Ctx(ctx, call, f, callee, ctx.depth + 1)
+            self.ctxs.append(sub)
             e, x = self._build(callee, sub)
             out.append((e, x, False))
             inlined = True
@@ -206,6 +239,7 @@ class Graph:
                     lf = prog.funcs.get(lam.get('fn'))
                     if lf is not None and lf.key not in stack and lf.blocks:
                         sub = Ctx(ctx, call, f, lf, ctx.depth + 1, lambda_of=lam)
+                        self.ctxs.append(sub)
                         e, x = self._build(lf, sub)
                         out.append((e, x, True))
         return out
